@@ -21,7 +21,9 @@ ANCHORS = [
     "parser.py:CxxParser.__init__", "parser.py:CxxParser.parse", "parserstate.py:", "visitor.py:",
 ]
 RULE = ("block forests with uniquely named blocks (all forests of <=3 blocks over {namespace, extern, struct} x all skip "
-        "subsets, then random forests of up to 9 blocks x random skip subsets); a case is (program, skip set); "
+        "subsets; leaf sweeps: every kind of namespace-scope / class-scope declaration (aliases, using x3, enums, bodies with braces, "
+        "templates, static_assert, constructors with initializers, friends, access specifiers, ...) before, between, after and inside "
+        "nested blocks x all skip subsets; then random forests of up to 9 blocks, half of them with mixed leaf kinds, x random skip subsets); a case is (program, skip set); "
         "non-trivial = at least one skipped block whose start callback is actually delivered")
 CARRIED_BY = {
     "stream equals pruned unskipped stream, for every client, input and skip set": "theorem C05_skip_prunes (full, generic) + C05_parser (instance at the parser model)",
@@ -77,12 +79,21 @@ def cases(ctx):
         names = [n for r in roots for n in r.names()]
         for sub in gen_blocks.all_subsets(names):
             out.append((text, sub))
+    # every kind of declaration before, between, after and inside nested blocks of every kind, x all skip subsets
+    for text, names in gen_blocks.leaf_sweeps():
+        for sub in gen_blocks.all_subsets(names):
+            if sub:
+                out.append((text, sub))
     n_small = len(out)
     n_rand = ctx.budget(150, 6000)
     cnt = [1000]
-    for _ in range(n_rand):
+    for j in range(n_rand):
         roots = gen_blocks.random_tree(rng, rng.randint(2, 9), cnt)
-        text = gen_blocks.program(roots)
+        gen_blocks.LEAF_MODE = "mix" if j % 2 else None
+        try:
+            text = gen_blocks.program(roots)
+        finally:
+            gen_blocks.LEAF_MODE = None
         names = [n for r in roots for n in r.names()]
         for _ in range(3):
             k = rng.randint(1, min(4, len(names)))
